@@ -67,6 +67,9 @@ def make_legacy_osutils(fs):
 
     class LegacyFakeOSUtils(s3transfer.OSUtils):
         def get_file_size(self, filename):
+            exc = fs.faults.visit('fs.stat', filename)
+            if exc is not None:
+                raise exc
             if filename not in fs.files:
                 raise FileNotFoundError(2, 'No such file', filename)
             return len(fs.files[filename])
